@@ -250,7 +250,7 @@ class RefGen:
             w('  t0 = %s; if (R_trap || R_stop) return 0;' % call)
             sp -= n
             if rs:
-                w('  stk[%d] = t0;' % sp)
+                w('  stk[%d] = %st0;' % (sp, '(uint32_t)' if rs[0] in ('i32', 'f32') else ''))
                 sp += 1
             return sp, True
         if op == 'call_indirect':
@@ -272,7 +272,7 @@ class RefGen:
             w('  if (R_trap || R_stop) return 0;')
             sp -= n
             if rs:
-                w('  stk[%d] = t0;' % sp)
+                w('  stk[%d] = %st0;' % (sp, '(uint32_t)' if rs[0] in ('i32', 'f32') else ''))
                 sp += 1
             return sp, True
         if op in LOADS:
@@ -449,7 +449,7 @@ class Harness:
         w('static RMem R_ownmem[2]; static RTab R_owntab[2]; static RMem R_hostmem; static RTab R_hosttab; static uint64_t R_hostg[NG];')
         w('static int R_stop; /* reference reached something outside the property (OOB access, invalid indirect call, trace overflow) */')
         w('typedef struct { int id; int inst; int n; uint64_t a[4]; uint64_t ret; } HCall;')
-        w('static HCall R_calls[MAXC]; static int R_ncalls; static int I_ncalls;')
+        w('static int R_ncalls; static int I_ncalls;')
         w('static uint64_t r_trunc(uint64_t v, int bits) { return bits >= 64 ? v : (v & ((((uint64_t)1) << bits) - 1)); }')
         w('static uint64_t r_sext(uint64_t v, int from, int to) { uint64_t s = ((uint64_t)1) << (from - 1); v = r_trunc(v, from); if (v & s) v |= ~((s << 1) - 1); return r_trunc(v, to); }')
         # memory helpers
@@ -467,9 +467,14 @@ class Harness:
         w('static void R_init(RState* S, const uint8_t* seg, uint32_t seglen, uint32_t d, uint32_t s, uint32_t n) { uint32_t k; if ((uint64_t)d + n > (uint64_t)S->mem->pages * 65536ull || (uint64_t)s + n > seglen) { R_stop = 1; return; }')
         w('  for (k = 0; k < seglen; k++) if (k < n) S->mem->data[d + k] = seg[s + k]; }')
         # host calls
-        w('static uint64_t R_host(RState* S, int id, int n, uint64_t a0, uint64_t a1, uint64_t a2, uint64_t a3) {')
-        w('  HCall* c; if (R_ncalls >= MAXC) { R_stop = 1; return 0; } c = &R_calls[R_ncalls++];')
-        w('  c->id = id; c->inst = S->id; c->n = n; c->a[0] = a0; c->a[1] = a1; c->a[2] = a2; c->a[3] = a3; c->ret = nd64(); return c->ret; }')
+        # host-call trace without a read/write array: the K-th call (K symbolic, chosen once) is recorded in
+        # scalars and compared; return values come from a read-only table of symbolic values indexed by the
+        # running call number, so reference and real side see the same host answers.
+        w('static uint64_t H_ret[MAXC]; static uint32_t obs_k; static int obs_set; static HCall obs;')
+        w('static uint64_t R_host(RState* S, int id, int n, uint64_t a0, uint64_t a1, uint64_t a2, uint64_t a3) { uint64_t r;')
+        w('  if (R_ncalls >= MAXC) { R_stop = 1; return 0; }')
+        w('  if ((uint32_t)R_ncalls == obs_k) { obs_set = 1; obs.id = id; obs.inst = S->id; obs.n = n; obs.a[0] = a0; obs.a[1] = a1; obs.a[2] = a2; obs.a[3] = a3; }')
+        w('  r = H_ret[R_ncalls]; R_ncalls++; return r; }')
         w('typedef struct { int kind; uint64_t addr, a1, a2; uint64_t ret; } FCall;')
         w('static FCall R_fx[MAXC]; static int R_nfx; static int I_nfx;')
         w('static uint64_t R_futex(RState* S, int kind, uint64_t ea, uint64_t a1, uint64_t a2) { FCall* c; (void)S; if (R_nfx >= MAXC || ea > 0xFFFFFFFFull) { R_stop = 1; return 0; }')
@@ -582,15 +587,17 @@ class Harness:
             ps, rs = im.desc
             ret = TYPE_C[rs[0]] if rs else 'void'
             params = ''.join(', %s p%d' % (TYPE_C[t], j) for j, t in enumerate(ps))
-            w('%s %s(void* inst%s) { HCall* c;' % (ret, self.real_fname(fi), params))
+            w('%s %s(void* inst%s) { uint64_t r;' % (ret, self.real_fname(fi), params))
             w('  V_ASSERT(I_ncalls < R_ncalls, "host import called no more often than in the reference");')
-            w('  c = &R_calls[I_ncalls++];')
-            w('  V_ASSERT(c->id == %d, "host import called is the designated one");' % fi)
-            w('  V_ASSERT(inst == (void*)RI[c->inst], "host import receives the calling instance");')
+            w('  if ((uint32_t)I_ncalls == obs_k) {')
+            w('    V_ASSERT(obs_set && obs.id == %d, "host import called is the designated one");' % fi)
+            w('    V_ASSERT(inst == (void*)RI[obs.inst], "host import receives the calling instance");')
             for j, t in enumerate(ps):
-                w('  V_ASSERT(same_%s(bits_of_%s(p%d), c->a[%d]), "host import argument %d equals reference");' % (t, TYPE_C[t], j, j, j))
+                w('    V_ASSERT(same_%s(bits_of_%s(p%d), obs.a[%d]), "host import argument %d equals reference");' % (t, TYPE_C[t], j, j, j))
+            w('  }')
+            w('  r = H_ret[I_ncalls < MAXC ? I_ncalls : 0]; I_ncalls++;')
             if rs:
-                w('  return %s_of_bits(c->ret);' % TYPE_C[rs[0]])
+                w('  return %s_of_bits(r);' % TYPE_C[rs[0]])
             w('}')
         if self.futex_stub:
             w('U32 wasmMemoryAtomicWait(wasmMemory* mem, U32 address, U64 expect, I64 timeout, bool wait64) { FCall* c;')
@@ -649,7 +656,9 @@ class Harness:
         nimpf = len(m.imported('func'))
         w('static %sInstance INST[2];' % mod)
         w('void harness(void) { int k; (void)k;')
-        w('  cmp_idx = nd32();')
+        w('  cmp_idx = nd32(); obs_k = nd32(); V_ASSUME(obs_k < MAXC);')
+        for k in range(self.max_host_calls):
+            w('  H_ret[%d] = nd64();' % k)
         # host-provided state: same symbolic values on both sides
         for gi in range(nimpg):
             t = m.global_type(gi)[0]
@@ -715,7 +724,7 @@ class Harness:
                     w('    V_ASSUME(%s);' % cond.replace('$', 'a%d' % j))
                 args_r.append('a%d' % j)
                 args_i.append('%s_of_bits(a%d)' % (TYPE_C[t], j))
-            w('    uint64_t rr; R_ncalls = 0; I_ncalls = 0; R_nfx = 0; I_nfx = 0;')
+            w('    uint64_t rr; R_nfx = 0; I_nfx = 0;')
             if fi < nimpf:
                 w('    rr = R_host(&RS[%d], %d, %d%s);' % (inst, fi, len(ps), ''.join(', ' + a for a in args_r) + ', 0' * (4 - len(ps))))
             else:
